@@ -342,4 +342,43 @@ theorem eclipse_between (k : PC ℝ) (cols : List (Col ℝ)) (dz dens temps : Li
 /-- NV for the quadrature hypotheses: the two-point Gauss–Legendre rule -/
 example : ∀ w ∈ [(1:ℝ), 1], 0 ≤ w := by intro w hw; simp at hw; subst hw; norm_num
 
+/-! ### the contribution function (`tau`, the third value `model()` returns) -/
+
+/-- the contribution function of a layer is the weight with which that layer's source function enters the intensity
+    along the vertical (`_mu = 1`): `exp(-layer_tau) - exp(-dtau)`, each term dropped by its clamp -/
+theorem contrib_eq_coeff (r : Row ℝ) : contribOf r = coeff 1 r := by
+  cases hL : r.keepL <;> cases hD : r.keepD <;> simp [contribOf, cut, coeff, Emission.trans, hL, hD]
+
+/-- every entry of the contribution function is non-negative, and the entries of one wavenumber sum to the fraction of
+    the vertical ray absorbed by the whole column, `1 - f(surface_tau)` (`f` = `exp(-·)` with the clamp modelled exactly):
+    within `exp(-10)` above `1 - exp(-surface_tau)` -/
+theorem contrib_sum (k : PC ℝ) (cols : List (Col ℝ)) (dz dens temps : List ℝ) (col : Col ℝ) (hc : col ∈ cols)
+    (hn : ∀ c ∈ cols, InputsNonneg c.sig dz dens) :
+    (∀ x ∈ contribFn k cols dz dens temps col, 0 ≤ x) ∧
+    (contribFn k cols dz dens temps col).sum
+      = 1 - trans (keepFrom cols dz dens temps.length 0) (surfTau dz dens temps col) 1 ∧
+    1 - Real.exp (-(surfTau dz dens temps col)) ≤ (contribFn k cols dz dens temps col).sum ∧
+    (contribFn k cols dz dens temps col).sum ≤ 1 - Real.exp (-(surfTau dz dens temps col)) + Real.exp (-10) := by
+  have hfn : contribFn k cols dz dens temps col = (rowsOf k cols dz dens temps col).map (coeff 1) := by
+    unfold contribFn
+    exact List.map_congr_left (fun r _ => contrib_eq_coeff r)
+  have hok := rowsOf_ok k cols dz dens temps col hc hn
+  have hch := rowsOf_chain k cols dz dens temps col
+  have hw := weight_total 1 _ _ _ hch
+  obtain ⟨b0, b1⟩ := weight_total_bounds 1 (le_refl _) (surfTau dz dens temps col)
+    (keepFrom cols dz dens temps.length 0) (surf_sound cols dz dens temps col hc)
+  have he : (-(surfTau dz dens temps col)) * 1 = -(surfTau dz dens temps col) := by ring
+  rw [he] at hw b0 b1
+  refine ⟨?_, ?_, ?_, ?_⟩
+  · intro x hx
+    rw [hfn] at hx
+    obtain ⟨r, hr, rfl⟩ := List.mem_map.1 hx
+    exact rowsOk_coeff_nonneg 1 (by norm_num) _ hok r hr
+  · rw [hfn]; linarith
+  · rw [hfn]; linarith
+  · rw [hfn]; linarith
+
+example : contribOf (⟨3, 1, true, 11, false⟩ : Row ℝ) = Real.exp (-1) := by
+  simp [contribOf, cut]
+
 end Taurex.C02
